@@ -89,7 +89,23 @@ func loadAnchors() map[string][]string {
 
 func checksFor(anch map[string][]string, file string) []string {
 	if c, ok := anch[file]; ok {
-		return c
+		// the anchors name the properties a file matters most for; codec and container files
+		// are additionally judged by the writer/reader checks that exercise them broadly
+		extra := []string{}
+		if strings.HasPrefix(file, "lzma/") || !strings.Contains(file, "/") {
+			extra = []string{"C02", "C03", "C08"}
+		}
+		out := append([]string{}, c...)
+		for _, e := range extra {
+			dup := false
+			for _, x := range out {
+				dup = dup || x == e
+			}
+			if !dup {
+				out = append(out, e)
+			}
+		}
+		return out
 	}
 	switch {
 	case strings.HasPrefix(file, "cmd/gxz/"):
@@ -369,7 +385,7 @@ func main() {
 							env := append(os.Environ(), "VERIF_REPO="+wt, "VERIF_OUT="+vo)
 							rc, out := run("/verif", 15*time.Minute, env, "/verif/verif", "check", id, "--tier", "quick")
 							r.RCs[id] = rc
-							if rc == 1 {
+							if rc == 1 || (rc != 0 && strings.Contains(out, "VIOLATION property=")) {
 								r.Status, r.By = "detected", id
 								if i := strings.Index(out, "\n  "); i >= 0 {
 									r.Note = strings.TrimSpace(out[i:min(len(out), i+300)])
